@@ -1,4 +1,6 @@
 """C06 — snapping is total: no panic, no hang.  Spec: SnapTrace.tla (C06_NoPanic, C06_Time)."""
+import json
+
 import snapcheck
 import vlib
 
@@ -23,9 +25,35 @@ def real_plans(tier):
             dict(real=True, sets="WebMercatorQuad,NZTM2000Quad,UPSArcticWGS84Quad,UPSAntarcticWGS84Quad,WorldMercatorWGS84Quad", gens="star,arbitrary", variants="base", n=60 if q else 600, seed=s + 52, where="interior", deep=True)]
 
 
+def chains_part(tier):
+    def extra(drv, d):
+        kl, sl, nseq, r = snapcheck.chains_lines(drv, tier)
+        v = vlib.Verdict(PROP)
+
+        def on_fail(inv, idx, line):
+            raise vlib.Broken("unexpected")
+        # the spike removal itself on every sequence: no panic, never longer, only labels of its argument
+        cfg = "SPECIFICATION Spec\nINVARIANTS NoPanic OnlyLabelsOfInput NeverLonger\nCHECK_DEADLOCK FALSE\n"
+        fails = []
+        vlib.validate_records("ChainsTrace", "ChainsTraceC06.cfg", "chains_trace.ndjson", kl, data={"ChainsTraceC06.cfg": cfg},
+                              on_fail=lambda inv, idx, line: fails.append((inv, line)), workers=8)
+        extra.fails = fails
+        extra.nseq = nseq
+        extra.states = r.distinct
+        return sl
+    return extra
+
+
 def run(tier):
+    extra = chains_part(tier)
+
+    def post(v, drv, cov):
+        for inv, line in getattr(extra, "fails", [])[:5]:
+            v.violation("kmpDeduplicate on label sequence %s: %s fails" % (line[:200], inv), {"kind": "kmp-record", "invariant": inv, "record": json.loads(line)}, name="kmp")
+        cov["label_sequences"] = getattr(extra, "nseq", 0)
+        cov["states"] += getattr(extra, "states", 0)
     return snapcheck.run_snap_property(
-        PROP, tier, "SnapTrace_C06.cfg", plans(tier), real_plans=real_plans(tier), real_cfg="RealTrace_C06.cfg", classify=snapcheck.classify_known(PROP),
+        PROP, tier, "SnapTrace_C06.cfg", plans(tier), extra_lines=extra, post=post, real_plans=real_plans(tier), real_cfg="RealTrace_C06.cfg", classify=snapcheck.classify_known(PROP),
         rule="arbitrary in-grid vertex sequences (small point pools force repetition, spikes, zig-zags; rings of 0-2 points; up to 3 rings), "
              "all flag combinations and 1-3 levels; a recorded panic or a call slower than the (loose cubic) bound is a violation")
 
